@@ -294,7 +294,15 @@ impl ZchState {
                     (true, true) => ZchOutput::ShiftAltGr(osc),
                 })
         {
-            self.zchd.zchd_characters_to_delete_on_next_activation -= 1;
+            // The smart space is part of characters-to-delete only while the chord that sent it
+            // is still (partly) held; after a full release it is only part of the prior output
+            // count kept for followup chords.
+            if !self.zchd.zchd_input_keys.zchik_is_empty() {
+                self.zchd.zchd_characters_to_delete_on_next_activation -= 1;
+            }
+            if self.zchd.zchd_prioritized_chords.is_some() {
+                self.zchd.zchd_prior_activation_output_count -= 1;
+            }
             kb.press_key(OsCode::KEY_BACKSPACE)?;
             kb.release_key(OsCode::KEY_BACKSPACE)?;
         }
